@@ -765,7 +765,8 @@ def p_rejects(o):
             groups[n["group"]] = groups.get(n["group"], 0) + 1
             if len(o.samples) < 5:
                 o.samples.append({"program": n["name"], "group": n["group"], "ill_formed": region.strip()[:400], "rejected": ng_ok is False})
-            if not tw_ok:
+            if not tw_ok and not ng_ok:
+                # (a negative that compiles is a violation whatever its twin does; see below)
                 o.inconclusive.append("positive twin of %s (%s) does not compile: %s" % (n["name"], n["group"], (tw_d[0]["rendered"] if tw_d else "?")[:400]))
                 continue
             if ng_ok is None:
@@ -921,50 +922,58 @@ def p_features(o):
 
 
 def p_schema(o):
-    exe = build_rt(("schema",))
     o.replay_base = {"sub": "schema", "features": ["schema"]}
-    d = os.path.join(WORK, "schema-%d" % os.getpid())
-    shutil.rmtree(d, ignore_errors=True)
-    try:
-        rep = rt_pass(o, exe, "schema", ["--cases", sizes(o.tier, 4_000, 120_000), "--emit-dir", d, "--shards", NCPU], timeout=sizes(o.tier, 300, 1200))
-        if rep is None or rep.get("violation_count"):
-            return
-        procs = []
-        for k in range(NCPU):
-            procs.append(subprocess.Popen(["python3-vt", os.path.join(VERIF, "driver", "validate_schema.py"), os.path.join(d, "schema.json"), os.path.join(d, "docs-%d.jsonl" % k)],
-                                          stdout=subprocess.PIPE, stderr=subprocess.PIPE, text=True, env=base_env()))
-        validated = 0
-        for k, p in enumerate(procs):
-            try:
-                so, se = p.communicate(timeout=sizes(o.tier, 600, 2400))
-            except subprocess.TimeoutExpired:
-                p.kill()
-                o.inconclusive.append("watchdog: schema validator shard %d timed out" % k)
-                continue
-            try:
-                r = json.loads(so.strip().splitlines()[-1])
-            except Exception:
-                o.inconclusive.append("schema validator shard %d failed: %s" % (k, se[-400:]))
-                continue
-            validated += r["validated"]
-            if not r["schema_ok"]:
-                o.violations.append({"key": "C19/schema-invalid", "msg": r["errors"][0]["message"], "case": None})
-                o.violation_count += 1
-            for e in r["errors"]:
-                if e.get("case") is None:
-                    continue
-                o.violations.append({"key": "C19/document-rejected", "msg": "schema rejects a serialised registry at /%s: %s" % (e["path"], e["message"]), "case": e})
-                o.violation_count += 1
-            o.extra["schema_draft"] = r.get("draft")
-        o.extra["documents_validated"] = validated
-        if validated != o.evaluations:
-            o.inconclusive.append("validated %d documents but %d were emitted" % (validated, o.evaluations))
-    finally:
+    # the schema must accept the documents under every feature set that has `schema` on: with and without bit-vec (and docs)
+    configs = [("bitvec_", ("schema",), []), ("nobitvec_", ("schema",), ["--no-default-features"])]
+    if o.tier == "thorough":
+        configs.append(("docs_", ("schema", "docs"), []))
+    for pre, feats, extra in configs:
+        exe = build_rt(feats, extra_args=extra, tag="rt-schema-" + pre.strip("_"))
+        d = os.path.join(WORK, "schema-%s%d" % (pre, os.getpid()))
         shutil.rmtree(d, ignore_errors=True)
+        try:
+            before = o.evaluations
+            rep = rt_pass(o, exe, "schema", ["--cases", sizes(o.tier, 3_000, 60_000), "--emit-dir", d, "--shards", NCPU], timeout=sizes(o.tier, 300, 1200), prefix=pre, name="C19-schema-" + pre.strip("_"))
+            if rep is None or rep.get("violation_count"):
+                continue
+            emitted = o.evaluations - before
+            procs = []
+            for k in range(NCPU):
+                procs.append(subprocess.Popen(["python3-vt", os.path.join(VERIF, "driver", "validate_schema.py"), os.path.join(d, "schema.json"), os.path.join(d, "docs-%d.jsonl" % k)],
+                                              stdout=subprocess.PIPE, stderr=subprocess.PIPE, text=True, env=base_env()))
+            validated = 0
+            for k, p in enumerate(procs):
+                try:
+                    so, se = p.communicate(timeout=sizes(o.tier, 600, 2400))
+                except subprocess.TimeoutExpired:
+                    p.kill()
+                    o.inconclusive.append("watchdog: schema validator shard %d timed out" % k)
+                    continue
+                try:
+                    r = json.loads(so.strip().splitlines()[-1])
+                except Exception:
+                    o.inconclusive.append("schema validator shard %d failed: %s" % (k, se[-400:]))
+                    continue
+                validated += r["validated"]
+                if not r["schema_ok"]:
+                    o.violations.append({"key": "C19/schema-invalid", "msg": r["errors"][0]["message"], "case": {"features": list(feats) + extra}})
+                    o.violation_count += 1
+                for e in r["errors"]:
+                    if e.get("case") is None:
+                        continue
+                    e["features"] = list(feats) + extra
+                    o.violations.append({"key": "C19/document-rejected", "msg": "schema (features %s%s) rejects a serialised registry at /%s: %s" % (",".join(feats), " " + " ".join(extra) if extra else "", e["path"], e["message"]), "case": e})
+                    o.violation_count += 1
+                o.extra["schema_draft"] = r.get("draft")
+            o.extra[pre + "documents_validated"] = validated
+            if validated != emitted:
+                o.inconclusive.append("validated %d documents but %d were emitted (%s)" % (validated, emitted, pre))
+        finally:
+            shutil.rmtree(d, ignore_errors=True)
+        o.need(["def_composite", "def_variant", "def_sequence", "def_array", "def_tuple", "def_primitive", "def_compact", "def_bitsequence", "skipped_type_param_null", "empty_path_omitted", "id_u32_max"], pre)
     o.rule = ("serialised registries: RegGen (both modes, every definition kind, optional parts absent/present/empty, skipped type parameter => null, ids up to u32::MAX, index 255, hostile strings) "
-              "+ registries frozen from the compiled-in type corpus; validated by python jsonschema Draft7Validator against schemars::schema_for!(PortableRegistry). "
+              "validated by python jsonschema Draft7Validator against schemars::schema_for!(PortableRegistry), generated by builds with the schema feature on and bit-vec on / off (thorough: also docs on). "
               "Non-trivial: >=1 entry; distinct = distinct documents.")
-    o.need(["def_composite", "def_variant", "def_sequence", "def_array", "def_tuple", "def_primitive", "def_compact", "def_bitsequence", "skipped_type_param_null", "empty_path_omitted", "id_u32_max"])
     o.assumptions = ["python jsonschema 4.26 Draft-07 validator is the judge of 'validates'", "serde_json output is what a consumer validates"]
 
 
